@@ -87,6 +87,8 @@ type Mark struct {
 	// for known findings whose signature is "the other well-defined value").
 	HasAlt bool
 	Alt    uint32
+	// AltNaN (32 or 64): alternatively the cell (pair) may hold any NaN.
+	AltNaN int
 	Why    string
 }
 
@@ -286,13 +288,15 @@ func b32(f float32) uint32 { return math.Float32bits(f) }
 func f64(b uint64) float64 { return math.Float64frombits(b) }
 func b64(f float64) uint64 { return math.Float64bits(f) }
 
-func isNaN32(b uint32) bool   { return b&0x7f800000 == 0x7f800000 && b&0x007fffff != 0 }
-func isSNaN32(b uint32) bool  { return isNaN32(b) && b&0x00400000 == 0 }
-func isInf32(b uint32) bool   { return b&0x7fffffff == 0x7f800000 }
+func isNaN32(b uint32) bool    { return b&0x7f800000 == 0x7f800000 && b&0x007fffff != 0 }
+func isSNaN32(b uint32) bool   { return isNaN32(b) && b&0x00400000 == 0 }
+func isInf32(b uint32) bool    { return b&0x7fffffff == 0x7f800000 }
 func isDenorm32(b uint32) bool { return b&0x7f800000 == 0 && b&0x007fffff != 0 }
-func isZero32(b uint32) bool  { return b&0x7fffffff == 0 }
+func isZero32(b uint32) bool   { return b&0x7fffffff == 0 }
 
-func isNaN64(b uint64) bool    { return b&0x7ff0000000000000 == 0x7ff0000000000000 && b&0x000fffffffffffff != 0 }
+func isNaN64(b uint64) bool {
+	return b&0x7ff0000000000000 == 0x7ff0000000000000 && b&0x000fffffffffffff != 0
+}
 func isSNaN64(b uint64) bool   { return isNaN64(b) && b&0x0008000000000000 == 0 }
 func isDenorm64(b uint64) bool { return b&0x7ff0000000000000 == 0 && b&0x000fffffffffffff != 0 }
 func isZero64(b uint64) bool   { return b&0x7fffffffffffffff == 0 }
